@@ -21,7 +21,8 @@ sys.path.insert(0, os.path.dirname(os.path.dirname(os.path.abspath(__file__))))
 import common as C  # noqa: E402
 
 GEN = ['Effects', 'VecShape']
-PROPS = ['FinVerif.Props.C18a', 'FinVerif.Props.C18b', 'FinVerif.Props.C18c', 'FinVerif.Props.C18d', 'FinVerif.Props.C18e']
+PROPS = ['FinVerif.Props.C18a', 'FinVerif.Props.C18b', 'FinVerif.Props.C18c', 'FinVerif.Props.C18d', 'FinVerif.Props.C18e',
+         'FinVerif.Props.C18f']
 DRIVERS = ['FinVerif.Driver.C18']
 HIST = os.path.join(os.path.dirname(os.path.dirname(os.path.abspath(__file__))), 'c18_hist.py')
 NPROC = int(os.environ.get('VERIF_JOBS', '0')) or min(12, os.cpu_count() or 4)
@@ -1292,6 +1293,137 @@ def module_state_check(ctx, eff, before):
             ctx.broke(f'module-state observer is blind: {want[1]} was changed on purpose and not seen')
 
 
+def interclass_cases():
+    """(label, object, method name, positional arguments, {parameter name: argument object}) — representative valuation calls that
+    receive curves / models / other instruments"""
+    from financepy.utils.date import Date
+    from financepy.utils.frequency import FrequencyTypes
+    from financepy.utils.day_count import DayCountTypes
+    from financepy.utils.global_types import SwapTypes, OptionTypes, FinCapFloorTypes
+    from financepy.market.curves.discount_curve_flat import DiscountCurveFlat
+    from financepy.market.curves.discount_curve import DiscountCurve
+    from financepy.products.rates.ibor_swap import IborSwap
+    from financepy.products.rates.ibor_cap_floor import IborCapFloor
+    from financepy.products.rates.ibor_deposit import IborDeposit
+    from financepy.products.rates.ibor_single_curve import IborSingleCurve
+    from financepy.products.bonds.bond import Bond
+    from financepy.products.equity.equity_vanilla_option import EquityVanillaOption
+    from financepy.products.equity.equity_digital_option import EquityDigitalOption, FinDigitalOptionTypes
+    from financepy.products.fx.fx_vanilla_option import FXVanillaOption
+    from financepy.products.credit.cds import CDS
+    from financepy.products.credit.cds_curve import CDSCurve
+    from financepy.models.black_scholes import BlackScholes
+    from financepy.models.black import Black
+    vd = Date(15, 1, 2026)
+    flat = lambda r: DiscountCurveFlat(vd, r)                                                   # noqa: E731
+    dts = [vd.add_years(i) for i in range(0, 8)]
+    import numpy as np
+    pillars = lambda: DiscountCurve(vd, dts, np.array([0.97 ** i for i in range(0, 8)]))                  # noqa: E731
+    cases = []
+    sw = IborSwap(vd, '5Y', SwapTypes.PAY, 0.03, FrequencyTypes.SEMI_ANNUAL, DayCountTypes.ACT_365F)
+    c1, c2 = flat(0.03), pillars()
+    cases.append(('IborSwap.value', sw, 'value', (vd, c1, c2), {'discount_curve': c1, 'index_curve': c2}))
+    c1 = pillars()
+    cases.append(('IborSwap.pv01', sw, 'pv01', (vd, c1), {'discount_curve': c1}))
+    c1 = flat(0.025)
+    cases.append(('IborSwap.swap_rate', sw, 'swap_rate', (vd, c1), {'discount_curve': c1}))
+    bond = Bond(Date(15, 1, 2020), Date(15, 1, 2032), 0.04, FrequencyTypes.SEMI_ANNUAL, DayCountTypes.ACT_ACT_ICMA)
+    c1 = pillars()
+    cases.append(('Bond.dirty_price_from_discount_curve', bond, 'dirty_price_from_discount_curve', (vd, c1), {'discount_curve': c1}))
+    c1 = flat(0.04)
+    cases.append(('Bond.clean_price_from_discount_curve', bond, 'clean_price_from_discount_curve', (vd, c1), {'discount_curve': c1}))
+    opt = EquityVanillaOption(vd.add_years(1), 100.0, OptionTypes.EUROPEAN_CALL)
+    for meth in ('value', 'delta', 'vega', 'theta'):
+        c1, c2, m = flat(0.03), flat(0.01), BlackScholes(0.2)
+        cases.append(('EquityVanillaOption.' + meth, opt, meth, (vd, 100.0, c1, c2, m),
+                      {'discount_curve': c1, 'dividend_curve': c2, 'model': m}))
+    dig = EquityDigitalOption(vd.add_years(1), 100.0, OptionTypes.EUROPEAN_CALL, FinDigitalOptionTypes.CASH_OR_NOTHING)
+    c1, c2, m = flat(0.03), flat(0.01), BlackScholes(0.2)
+    cases.append(('EquityDigitalOption.theta', dig, 'theta', (vd, 100.0, c1, c2, m),
+                  {'discount_curve': c1, 'dividend_curve': c2, 'model': m}))
+    fx = FXVanillaOption(vd.add_years(1), 1.3, 'EURUSD', OptionTypes.EUROPEAN_CALL, 1000000.0, 'USD')
+    c1, c2, m = flat(0.03), flat(0.01), BlackScholes(0.1)
+    cases.append(('FXVanillaOption.value', fx, 'value', (vd, 1.25, c1, c2, m), {'domestic_curve': c1, 'foreign_curve': c2, 'model': m}))
+    cap = IborCapFloor(vd, '3Y', FinCapFloorTypes.CAP, 0.03)
+    c1, m = pillars(), Black(0.25)
+    cases.append(('IborCapFloor.value', cap, 'value', (vd, c1, m), {'libor_curve': c1, 'model': m}))
+    libor = IborSingleCurve(vd, [IborDeposit(vd, '6M', 0.03, DayCountTypes.ACT_360)], [],
+                            [IborSwap(vd, f'{k}Y', SwapTypes.PAY, 0.03 + 0.001 * k, FrequencyTypes.SEMI_ANNUAL, DayCountTypes.ACT_365F)
+                             for k in (1, 2, 3, 5, 7)])
+    cases.append(('IborSwap.value (bootstrapped curve)', sw, 'value', (vd, libor, libor), {'discount_curve': libor, 'index_curve': libor}))
+    cds_list = [CDS(vd, f'{k}Y', 0.01 + 0.001 * k) for k in (1, 3, 5)]
+    issuer = CDSCurve(vd, cds_list, libor, 0.4)
+    cds = CDS(vd, '4Y', 0.015)
+    cases.append(('CDS.value', cds, 'value', (vd, issuer, 0.4), {'issuer_curve': issuer}))
+    cases.append(('CDS.risky_pv01', cds, 'risky_pv01', (vd, issuer), {'issuer_curve': issuer}))
+    return cases
+
+
+def interclass_effects_check(ctx, eff):
+    """runtime side of Props/C18f: on representative valuation calls, every attribute of every ARGUMENT object is digested before and
+    after; an argument's attribute may change only if the generated call graph predicts it: it is among the `writes` of a method of the
+    argument's class (or of a base class) reachable from the called method through `call_graph` edges, or among the called method's own
+    parameter writes on that parameter."""
+    import c18_hist
+    cg = eff['call_graph']
+    succ = {}
+    for e in cg['edges']:
+        succ.setdefault((e[0], e[1]), set()).add((e[3], e[4]))
+    node_writes = {(n[0], n[1]): set(n[2]) for n in cg['nodes']}
+    allc = dict(eff.get('classes', {}))
+    allc.update(eff.get('extended', {}))
+    allc.update(cg.get('targets', {}))
+    try:
+        cases = interclass_cases()
+    except Exception as e:  # noqa: BLE001
+        ctx.broke(f'inter-class effects check could not build its objects: {type(e).__name__}: {e}')
+        return
+    ncalls = nargs = nchanged = 0
+    seen_edges = 0
+    for label, obj, meth, args, watched in cases:
+        cls = type(obj).__name__
+        reach, todo = set(), [(cls, meth)]
+        while todo:
+            k = todo.pop()
+            for t in succ.get(k, ()):
+                if t not in reach:
+                    reach.add(t)
+                    todo.append(t)
+        seen_edges += len(reach)
+        own = (allc.get(cls, {}).get('methods', {}).get(meth) or {}).get('pwrites', [])
+        before = {p: c18_hist.digest(o) for p, o in watched.items()}
+        try:
+            getattr(obj, meth)(*args)
+        except Exception as e:  # noqa: BLE001
+            ctx.broke(f'inter-class effects check: {label} raised {type(e).__name__}: {e}')
+            continue
+        ncalls += 1
+        for p, o in watched.items():
+            nargs += 1
+            after = c18_hist.digest(o)
+            changed = sorted(a for a in set(before[p]) | set(after) if before[p].get(a) != after.get(a))
+            if not changed:
+                continue
+            nchanged += 1
+            names = {k.__name__ for k in type(o).__mro__}
+            predicted = set()
+            for (k, m) in reach:
+                if k in names:
+                    predicted |= node_writes.get((k, m), set())
+            for pw in own:
+                q, how = pw.split(':', 1)
+                if q == p and how.startswith('.'):
+                    predicted.add(how[1:].split('=')[0].split('+')[0].split('.')[0].split('(')[0])
+            bad = [a for a in changed if a not in predicted]
+            if bad:
+                ctx.broke(f'correspondence: {label} changed attribute(s) {bad} of its argument `{p}` ({type(o).__name__}); the generated '
+                          f'call graph and summaries (Props/C18f) predict only {sorted(predicted)}')
+    ctx.count('inter-class effects: argument objects digested before / after a valuation call (changed ones counted as nontrivial)',
+              nargs, nchanged, sample={'calls': ncalls, 'reached (class, method) pairs over all calls': seen_edges})
+    if ncalls < 10 or seen_edges == 0:
+        ctx.broke('inter-class effects check is blind: fewer than 10 calls ran or the call graph reaches nothing from them')
+
+
 def theta_bump_checks(ctx, rng, drivers_ok=True):
     """`theta` of the exotic options (EquityOption.theta / FXOption.theta) moves the value_dt of the CALLER's curves and
     sets it back: implementation vs the state machine of Model/C18x (Driver/C18 `TH`), and the property itself — the
@@ -1655,14 +1787,16 @@ def run(ctx):
     theta_bump_checks(ctx, ctx.rng('theta'), drivers_ok)
     if eff is not None and 'module_state' in eff:
         module_state_check(ctx, eff, mod_before)
+    if eff is not None and 'call_graph' in eff:
+        interclass_effects_check(ctx, eff)
     lap('model ties')
     ctx.assumptions += [
-        'the effect extractor is intra-class: effects of calls made on OTHER objects (parameters, attribute-held objects) are covered only by the recorded call names (pcalls) and by the history exploration',
+        'the per-method effect summaries are intra-class; calls made on OTHER objects (parameters, attribute-held objects) are followed by the generated call graph (Props/C18f) where the class of the object can be resolved (annotation / default / isinstance / naming convention) - the 5 unresolved call sites are listed exactly - and otherwise covered by the history exploration',
         'effects through NumPy array aliasing and inside Numba-compiled kernels are found only by the history exploration',
         'the two-phase tree-model API (build_tree then a query) is exercised as products use it (build and query in one call); a bare query after somebody else\'s build_tree is by design the last tree',
         'printing methods (__repr__, print_*) report the last valuation by design and are not treated as results, except str(Date) whose dependence on the global format is checked with the format as an explicit argument',
     ]
-    return C.finish(ctx, 'proof', 'lake build FinVerif.Props.C18a FinVerif.Props.C18b FinVerif.Props.C18c FinVerif.Props.C18d FinVerif.Props.C18e && lake env lean .cache/audit/Audit_C18.lean',
+    return C.finish(ctx, 'proof', 'lake build FinVerif.Props.C18a FinVerif.Props.C18b FinVerif.Props.C18c FinVerif.Props.C18d FinVerif.Props.C18e FinVerif.Props.C18f && lake env lean .cache/audit/Audit_C18.lean',
                     C.TRUSTED_BASE_COMMON + ['tools/effects/extract.py: the read-before-write / write sets it emits over-approximate what the methods do (checked against observed attribute changes on every explored call)'],
                     RULE)
 
